@@ -297,6 +297,8 @@ func child(seed int64, n int, dir string) {
 	ws := workloads()
 	bands := [][2]int{{200, 400}, {400, 900}, {900, 1800}, {1800, 3000}}
 	round := 0
+	runLoadMatrix(g, scratch, os.Getenv("VERIF_TIER") == "thorough", &cs, sigs)
+	n += cs.Queries // the matrix comes on top of the n generated statements
 	for cs.Queries < n {
 		repo, err := os.MkdirTemp(scratch, "c13repo-")
 		if err != nil {
